@@ -6,6 +6,7 @@
 import Cav.Drv.Quad
 import Cav.Drv.Parse
 import Cav.Drv.Sweep
+import Cav.Drv.Disp
 
 open Cav Cav.Drv
 
@@ -24,6 +25,10 @@ def step (line : String) : String :=
   | "ad" :: rest => drvAd rest
   | "sweep" :: rest => drvSweep rest
   | "sweepq" :: rest => drvSweepQ rest
+  | "api2d" :: rest => drvApi2d rest
+  | "api3d" :: rest => drvApi3d rest
+  | "split" :: rest => drvSplit rest
+  | "splitt" :: rest => drvSplitT rest
   | _ => "bad-request"
 
 partial def loop (h : IO.FS.Stream) (out : IO.FS.Stream) : IO Unit := do
